@@ -441,6 +441,68 @@ func c15Run(c c15Case) *vlib.Failure {
 		return vlib.Failf("Printf(%q, %v) into the early buffer allocates: %v allocs/run", format, c15Describe(c.Args), allocs)
 	}
 	earlyPrintBuffer.rIndex, earlyPrintBuffer.wIndex = 0, 0
+	return c15CallSites(c)
+}
+
+// c15CallSites measures what the kernel's own call sites do: fresh, run-time
+// values passed straight to the variadic parameter. "No heap allocation, so it
+// is usable before the allocator exists" includes the conversion of those
+// values to interface{}: it stays on the caller's stack as long as the
+// formatter does not let its arguments escape. The values are taken from the
+// case (never constants, never below 256, so that the runtime cannot box them
+// statically); the shapes are fixed because every call site is its own piece
+// of compiled code.
+func c15CallSites(c c15Case) *vlib.Failure {
+	var (
+		u64 = uint64(0x1234567)
+		i32 = int32(-70000)
+		str = "run-time string "
+		raw []byte
+	)
+	for _, a := range c.Args {
+		switch {
+		case a.U > 255:
+			u64 = a.U
+		case a.I < -255 && a.I >= -1<<31:
+			i32 = int32(a.I)
+		case len(a.S) > 0:
+			str = string(a.S)
+		}
+	}
+	for _, p := range c.Pieces {
+		if len(p.Lit) > 0 {
+			raw = p.Lit
+		}
+	}
+	if len(raw) == 0 {
+		raw = []byte(str)
+	}
+	u64 |= 0x100
+	ptr, i64, u16 := uintptr(u64), -int64(u64>>1)-300, uint16(u64)|0x100
+	w := c15RecW
+	sites := []struct {
+		name string
+		call func()
+	}{
+		{`Fprintf(w, "%d", uint64)`, func() { Fprintf(w, "%d", u64) }},
+		{`Fprintf(w, "%x %s", uintptr, string)`, func() { Fprintf(w, "%x %s", ptr, str) }},
+		{`Fprintf(w, "%6d|%s", int32, []byte)`, func() { Fprintf(w, "%6d|%s", i32, raw) }},
+		{`Fprintf(w, "%o %d %t", int64, uint16, bool)`, func() { Fprintf(w, "%o %d %t", i64, u16, u64&1 == 0) }},
+		{`Fprintf(w, "%s", uint64) (wrong type)`, func() { Fprintf(w, "%s", u64) }},
+		{`Fprintf(w, "literal", string) (surplus argument)`, func() { Fprintf(w, "literal", str) }},
+		{`Printf("%d %s", int64, string) into the early buffer`, func() { Printf("%d %s", i64, str) }},
+	}
+	for _, s := range sites {
+		call := s.call
+		allocs := testing.AllocsPerRun(2, func() {
+			c15Rec.n = 0
+			call()
+		})
+		earlyPrintBuffer.rIndex, earlyPrintBuffer.wIndex = 0, 0
+		if allocs != 0 {
+			return vlib.Failf("call site %s with run-time values allocates: %v allocs/run (the arguments are forced onto the heap)", s.name, allocs)
+		}
+	}
 	return nil
 }
 
